@@ -100,6 +100,16 @@ func (w *World) applyFault(orig []byte, f *Fault) []byte {
 		d = append(d, 0, 0, byte(tl>>8), byte(tl))
 		d = append(d, f.Data...)
 		binary.BigEndian.PutUint32(d[24:28], uint32(len(d)))
+	case "sklen": // the SK payload's own length field set to Val, nothing repaired
+		if len(d) < 32 || f.Val < 0 || f.Val > 65535 || int(binary.BigEndian.Uint16(d[30:32])) == f.Val {
+			return nil
+		}
+		binary.BigEndian.PutUint16(d[30:32], uint16(f.Val))
+	case "hdrlen": // the header's length field set to Val, nothing repaired
+		if len(d) < 28 || f.Val < 0 {
+			return nil
+		}
+		binary.BigEndian.PutUint32(d[24:28], uint32(f.Val))
 	case "firsttype":
 		if len(d) < 28 || f.Val < 0 || f.Val > 255 {
 			return nil
